@@ -855,6 +855,204 @@ def translate_analyze(mt, where):
     return out
 
 
+# ------------------------------------------------------------------ the `for unit in units` loops of the code generator
+
+UNIT_FIELDS = {"unit_ident": ("unit.ident", "text"), "name": ("unit.name", "text"), "symbol": ("unit.symbol", "text"),
+               "si_prefix": ("unit.pfx", "opt"), "scale": ("unit.scale", "opt"), "doc": ("unit.doc", "opt")}
+PASS_THROUGH = {"clone", "as_ref", "value", "as_str", "to_string", "to_owned", "unwrap"}
+
+
+def cg_term(where, e, env):
+    """symbolic value of an expression over the loop variable `unit` -> (Lean term, 'text' | 'opt')"""
+    e = strip_ref(e)
+    k = e[0]
+    if k == "path" and len(e[1]) == 1 and e[1][0] in env:
+        return env[e[1][0]]
+    if k == "field" and strip_ref(e[1]) == ("path", ["unit"]) and e[2] in UNIT_FIELDS:
+        return UNIT_FIELDS[e[2]]
+    if k == "mcall":
+        _, recv, name, args = e
+        t, ty = cg_term(where, recv, env)
+        if name in PASS_THROUGH and not args:
+            return t, ty
+        if name == "to_case" and len(args) == 1 and args[0][0] == "path" and args[0][1][0] == "Case" and ty == "text":
+            conv = {"UpperSnake": "Case.upperSnake", "UpperCamel": "Case.upperCamel"}.get(args[0][1][-1])
+            if conv:
+                return f"({conv} {t})", "text"
+        raise Untranslatable(f"{where}: `.{name}(..)` in the code generator")
+    if k == "call" and e[1][0] == "path" and e[1][1][-2:] == ["Ident", "new"] and len(e[2]) == 2:
+        return cg_term(where, e[2][0], env)
+    raise Untranslatable(f"{where}: expression form `{k}` in the code generator")
+
+
+def strip_doc_attr(toks):
+    """drop `#[doc = #x]` from an arm"""
+    out = []
+    i = 0
+    while i < len(toks):
+        if is_p(toks[i], "#") and i + 1 < len(toks) and is_p(toks[i + 1], "["):
+            c = matching(toks, i + 1)
+            inner = [t.text for t in toks[i + 2:c]]
+            if inner[:2] == ["doc", "="]:
+                i = c + 1
+                continue
+        out.append(toks[i])
+        i += 1
+    return out
+
+
+def arm_of(where, qtoks, env):
+    """tokens of `quote!(#code ARM)` -> semantic row"""
+    ts = [t.text for t in strip_doc_attr(qtoks)]
+    if ts[:2] != ["#", "code"]:
+        raise Untranslatable(f"{where}: quote! in the loop does not start with #code")
+    ts = ts[2:]
+
+    def var(name):
+        if name not in env:
+            raise Untranslatable(f"{where}: interpolation #{name} is not bound in the loop")
+        return env[name][0]
+
+    def match(pattern):
+        """pattern items: literal token text, or ('v', key) for `# name`"""
+        got = {}
+        i = 0
+        for it in pattern:
+            if isinstance(it, tuple):
+                if i + 1 >= len(ts) or ts[i] != "#":
+                    return None
+                name = ts[i + 1]
+                if it[1] in got and got[it[1]] != name:
+                    return None
+                got[it[1]] = name
+                i += 2
+            else:
+                if i >= len(ts) or ts[i] != it:
+                    return None
+                i += 1
+        return got if i == len(ts) else None
+
+    V = lambda k_: ("v", k_)  # noqa: E731
+    g = match([V("a"), ","])
+    if g:
+        return ("variant", var(g["a"]))
+    g = match(["Self", ":", ":", V("a"), ","])
+    if g:
+        return ("elem", var(g["a"]))
+    g = match(["Self", ":", ":", V("a"), "=", ">", V("b"), ".", "to_owned", "(", ")", ","])
+    if g:
+        return ("arm", var(g["a"]), var(g["b"]))
+    g = match(["Self", ":", ":", V("a"), "=", ">", "Some", "(", "SIPrefix", ":", ":", V("b"), ")", ","])
+    if g:
+        return ("arm", var(g["a"]), var(g["b"]))
+    g = match(["Self", ":", ":", V("a"), "=", ">", "Amnt", "!", "(", V("b"), ")", ","])
+    if g:
+        return ("arm", var(g["a"]), var(g["b"]))
+    g = match(["pub", "const", V("c"), ":", V("e"), "=", V("e"), ":", ":", V("a"), ";"])
+    if g:
+        return ("const", var(g["c"]), var(g["a"]))
+    raise Untranslatable(f"{where}: arm `{' '.join(ts)}` is not one of the known shapes")
+
+
+def loop_rows(where, stmts, tail, env, cond):
+    """body of the loop -> (filter condition or None, row); every path must yield the same row"""
+    env = dict(env)
+    rows = []
+    items = list(stmts) + ([("expr", tail, False)] if tail is not None else [])
+    for st in items:
+        if st[0] == "let":
+            if st[1][0] != "pid" or st[3] is None:
+                raise Untranslatable(f"{where}: let pattern in the loop")
+            env[st[1][1]] = cg_term(where, st[3], env)
+            continue
+        e = st[1]
+        if e[0] == "assign" and e[1] == "=" and e[2] == ("path", ["code"]) and e[3][0] == "macro" and e[3][1] == "quote":
+            rows.append((cond, arm_of(where, e[3][2], env)))
+            continue
+        if e[0] == "if" and e[1][0] != "let":
+            c = strip_ref(e[1])
+            if c[0] == "mcall" and c[2] == "is_some" and not c[3]:
+                t, ty = cg_term(where, c[1], env)
+                if ty != "opt" or cond is not None:
+                    raise Untranslatable(f"{where}: condition in the loop")
+                rows += loop_rows(where, e[2][1], e[2][2], env, f"{t}.isSome")
+                if e[3] is not None:
+                    eb = e[3]
+                    ok = eb[0] == "block" and len(eb[1]) + (eb[2] is not None) == 1 and \
+                        (eb[2] or eb[1][0][1])[0] == "macro" and (eb[2] or eb[1][0][1])[1].startswith("abort")
+                    if not ok:
+                        raise Untranslatable(f"{where}: else branch in the loop is not an abort")
+                continue
+            raise Untranslatable(f"{where}: condition in the loop")
+        if e[0] == "match":
+            sc = strip_ref(e[1])
+            if sc[0] == "field" and sc[2] == "doc":
+                for pat, guard, body in e[2]:
+                    benv = dict(env)
+                    if pat[0] == "pts" and pat[1] == ["Some"] and pat[2] and pat[2][0][0] == "pid":
+                        benv[pat[2][0][1]] = ("unit.doc", "opt")
+                    if body[0] != "block":
+                        body = ("block", [], body)
+                    rows += loop_rows(where, body[1], body[2], benv, cond)
+                continue
+        raise Untranslatable(f"{where}: statement form `{e[0]}` in the loop")
+    return rows
+
+
+def translate_codegen_loop(mt, where, fn_name, lean_name, kind):
+    fns = functions_in(mt, 0, len(mt)).get(fn_name)
+    if not fns or len(fns) != 1:
+        raise Untranslatable(f"{where}: fn {fn_name} not found")
+    try:
+        block = parse_block(fns[0][2])
+    except ParseError as e:
+        raise Untranslatable(f"{where}: {fn_name}: {e}")
+    w = f"{where}: {fn_name}"
+    loops = [st[1] for st in block[1] if st[0] == "expr" and st[1][0] == "for"]
+    if len(loops) != 1:
+        raise Untranslatable(f"{w}: expected exactly one `for` loop")
+    lp = loops[0]
+    if lp[1] != ("pid", "unit") or strip_ref(lp[2]) != ("path", ["units"]):
+        raise Untranslatable(f"{w}: the loop is not `for unit in units`")
+    rows = loop_rows(w, lp[3][1], lp[3][2], {}, None)
+    distinct = []
+    for r in rows:
+        if r not in distinct:
+            distinct.append(r)
+    if len(distinct) != 1:
+        raise Untranslatable(f"{w}: the paths through the loop body generate different code: {distinct}")
+    cond, row = distinct[0]
+    if row[0] != kind:
+        raise Untranslatable(f"{w}: generates `{row[0]}` rows, expected `{kind}`")
+    src = f"(units.filter (fun unit => {cond}))" if cond else "units"
+    if kind in ("variant", "elem"):
+        return f"def {lean_name} (units : List UnitDef) : List Text :=\n  {src}.map (fun unit => {row[1]})"
+    ty2 = {"Codegen.fn_si_prefix": "Option Text", "Codegen.fn_scale": "Option Lit"}.get(lean_name, "Text")
+    return f"def {lean_name} (units : List UnitDef) : List (Text × {ty2}) :=\n  {src}.map (fun unit => ({row[1]}, {row[2]}))"
+
+
+CODEGEN_LOOPS = [("codegen_unit_variants", "Codegen.variants", "variant", "List Text"),
+                 ("codegen_unit_variants_array", "Codegen.variants_array", "elem", "List Text"),
+                 ("codegen_fn_name", "Codegen.fn_name", "arm", "List (Text × Text)"),
+                 ("codegen_fn_symbol", "Codegen.fn_symbol", "arm", "List (Text × Text)"),
+                 ("codegen_fn_si_prefix", "Codegen.fn_si_prefix", "arm", "List (Text × Option Text)"),
+                 ("codegen_fn_scale", "Codegen.fn_scale", "arm", "List (Text × Option Lit)"),
+                 ("codegen_unit_constants", "Codegen.constants", "const", "List (Text × Text)")]
+
+
+def translate_codegen(mt, where):
+    out = []
+    for fn_name, lean, kind, ty in CODEGEN_LOOPS:
+        try:
+            out.append(translate_codegen_loop(mt, where, fn_name, lean, kind))
+        except Untranslatable as e:
+            FAILURES.append(str(e))
+            msg = str(e).replace('"', "'")
+            out.append(f"/-- NOT TRANSLATED: {msg} -/\ndef {lean} (units : List UnitDef) : {ty} :=\n  untranslatable \"{msg}\"")
+        out.append("")
+    return out
+
+
 # ------------------------------------------------------------------ locating the functions
 
 def find_block(toks, start_words):
@@ -1310,6 +1508,7 @@ def run(repo):
     out.append("section")
     out.append("open MacroFront")
     out += translate_analyze(mt, where)
+    out += translate_codegen(mt, where)
     out.append("end")
     out.append("")
     out.append("end Qty.Gen.Algos")
